@@ -263,6 +263,10 @@ Section Den.
   Variable F : list fragdef.
   Variable cfuel : nat.    (* fuel for CollectFields (nesting of inline fragments and spreads) *)
   Variable choose : list selection -> list asg.
+  (** [tn_relax = true] is NOT the specification: it reads an aliased [__typename] as [String | null],
+      the known deviation of the generator, so that the C02 check can still look for OTHER deviations in
+      documents that contain one (used by Corr.holds2 only for the "relaxed" twin of such a case) *)
+  Variable tn_relax : bool.
 
   Fixpoint den (fuel : nat) (T : str) (sels : list selection) (v : val) {struct fuel} : bool :=
     match fuel with
@@ -277,6 +281,9 @@ Section Den.
                 same_keys (map fst kvs) (keys_of es) &&
                 forallb (fun kv =>
                   let fname := name_of es (fst kv) in
+                  if tn_relax && str_eqb fname SP_TYPENAME && negb (str_eqb (fst kv) SP_TYPENAME)
+                  then match snd kv with VNull | VStr _ => true | _ => false end
+                  else
                   match sp_field_type S o fname with
                   | None => false
                   | Some t =>
@@ -293,12 +300,13 @@ Section Den.
 End Den.
 
 (** Execute_spec under one assignment of the boolean variables *)
-Definition exec_b (S : tsdoc) (F : list fragdef) (cf : nat) (sg : asg) := den S F cf (fun _ => [sg]).
+Definition exec_b (S : tsdoc) (F : list fragdef) (cf : nat) (sg : asg) := den S F cf (fun _ => [sg]) false.
 
 (** Ref_local: the per-selection-set denotation of the property text *)
 Definition local_choices (cf : nat) (F : list fragdef) (sels : list selection) : list asg :=
   all_asg (dedup (local_vars cf F sels)).
-Definition ref_local_b (S : tsdoc) (F : list fragdef) (cf : nat) := den S F cf (local_choices cf F).
+Definition ref_local_b (S : tsdoc) (F : list fragdef) (cf : nat) := den S F cf (local_choices cf F) false.
+Definition ref_local_relaxed_b (S : tsdoc) (F : list fragdef) (cf : nat) := den S F cf (local_choices cf F) true.
 
 (** * bounded enumeration of responses (candidates only; re-checked with [exec_b]) *)
 
